@@ -197,8 +197,31 @@ void harness(void) {
 	__CPROVER_input("obs_io_calls", vf_io_calls);
 	__CPROVER_input("obs_last_ret", vf_io_last_ret);
 	__CPROVER_input("obs_last_errno", vf_io_last_errno);
-	VF_ASSERT(!((ev_flags & TP_F_ERROR) && ev_fflags != 0) || (vf_cb_calls == 1 && vf_cb_error != 0),
-	    "socket error reported by the pool: reaches the callback once, as an error");
+	{
+		/* "socket errors ... are each reported once to the callback": three disjoint ways the call can end */
+		const _Bool pool_err = (ev_flags & TP_F_ERROR) && ev_fflags != 0;
+		const _Bool end_wouldblock = vf_io_calls > 0 && vf_io_last_ret == -1 && FILTERED(vf_io_last_errno);
+		const _Bool end_amount_moved = vf_io_calls > 0 && vf_io_last_ret > 0 && sum >= ev_data && sum < b_tr &&
+		    !(VF_EVENT == 1 && (tflags & TP_TASK_F_CB_AFTER_EVERY_READ));	/* kqueue style: ev.data announces less than the window; Linux always says UINT64_MAX */
+		__CPROVER_input("obs_end_wouldblock", (int)end_wouldblock);
+		__CPROVER_input("obs_end_amount_moved", (int)end_amount_moved);
+		VF_ASSERT(!(pool_err && !end_wouldblock && !end_amount_moved) || (vf_cb_calls == 1 && vf_cb_error != 0),
+		    "socket error reported by the pool: reaches the callback once, as an error (the call ends with a callback)");
+		VF_ASSERT(!(pool_err && end_wouldblock) || (vf_cb_calls == 1 && vf_cb_error == (int)ev_fflags),
+		    "socket error reported by the pool: reaches the callback also when the kernel has nothing to transfer right now (would-block)");
+		VF_ASSERT(!(pool_err && end_amount_moved) || (vf_cb_calls == 1 && vf_cb_error == (int)ev_fflags),
+		    "socket error reported by the pool: reaches the callback also when the announced amount was moved and window space remains");
+		/* what DOES hold when the error is not delivered: the task is left exactly as after a plain would-block -
+		 * re-armed, bytes carried - so with a time-out configured the silence ends in ETIMEDOUT, without one it does not end */
+		if (pool_err && vf_cb_calls == 0) {
+			const int pre0 = (timeout != 0) ? 1 : 0;
+			VF_ASSERT(task.tot_transfered_size == tot0 + sum && task.cb_func == vf_cb && task.buf == &buf,
+			    "undelivered socket error: the task itself is intact, transferred bytes are carried");
+			VF_ASSERT(vf_ev_cnt == pre0 + ((timeout != 0) ? 1 : 0) + ((event_flags & TP_F_DISPATCH) ? 1 : 0) &&
+			    (timeout == 0 || (vf_ev[pre0].op == VF_EV_ENABLE && vf_ev[pre0].event == TP_EV_TIMER && vf_ev[pre0].ud == &task.tp_timer && vf_ev[pre0].data == timeout)),
+			    "undelivered socket error: the task stays armed; a configured time-out timer is re-armed (the error surfaces at best as ETIMEDOUT)");
+		}
+	}
 	VF_ASSERT(vf_cb_calls == 0 || vf_cb_error == 0 || (vf_io_calls > 0 && vf_io_last_ret == -1 && vf_cb_error == vf_io_last_errno) ||
 	    ((ev_flags & TP_F_ERROR) && vf_cb_error == (int)ev_fflags), "an error reaches the callback only if the pool or a system call reported it");
 	VF_ASSERT(vf_cb_calls == 1 || (vf_io_calls > 0 && ((vf_io_last_ret == -1 && FILTERED(vf_io_last_errno)) || (vf_io_last_ret > 0 && sum >= ev_data && sum < b_tr))),
